@@ -95,11 +95,14 @@ def chunk_rows(rows, w):
 def gen_cases(ctx):
     """design checks, then the pose grid enumerated by TLC"""
     sfx = "" if ctx.quick else "_full"
-    res = vlib.run_tlc(ctx, "MC_Retry", "MC_Retry" + sfx, workers=vlib.NCPU, timeout=1500)
-    ctx.note("MC_Retry%s: %d states: row-scan / quarter-turn / mirrored-retry automata obey the orientation, flag and error-precedence laws" % (sfx, res.distinct))
-    res = vlib.run_tlc(ctx, "MC_Pose", "MC_Pose" + sfx, workers=vlib.NCPU, timeout=1500)
-    ctx.note("MC_Pose%s: %d states: pixel-map laws on every tiny image x pose, row facts of posed 1-D images, clauses on the abstract reader" % (sfx, res.distinct))
-    res = vlib.run_tlc(ctx, "MC_Pose", "Gen_Pose", workers=1, timeout=600)
+    half = max(2, vlib.NCPU // 2)
+    with concurrent.futures.ThreadPoolExecutor(max_workers=3) as ex:
+        f1 = ex.submit(vlib.run_tlc, ctx, "MC_Retry", "MC_Retry" + sfx, workers=half, timeout=2400)
+        f2 = ex.submit(vlib.run_tlc, ctx, "MC_Pose", "MC_Pose" + sfx, workers=half, timeout=2400)
+        f3 = ex.submit(vlib.run_tlc, ctx, "MC_Pose", "Gen_Pose", workers=1, timeout=600)
+        r1, r2, res = f1.result(), f2.result(), f3.result()
+    ctx.note("MC_Retry%s: %d states: row-scan / quarter-turn / mirrored-retry automata obey the orientation, flag and error-precedence laws" % (sfx, r1.distinct))
+    ctx.note("MC_Pose%s: %d states: pixel-map laws on every tiny image x pose, row facts of posed 1-D images, clauses on the abstract reader" % (sfx, r2.distinct))
     cases = vlib.tlc_printed(res)
     if len(cases) != 4 * 6 * 4 * (2 + 1 + 2 * 9):
         raise vlib.Infra("Gen_Pose printed %d cases:\n%s" % (len(cases), res.out[-2000:]))
